@@ -465,7 +465,7 @@ def run(ctx: Ctx) -> int:
     cases = [from_tlc(g, rng, i) for i, g in enumerate(gen)]
     n_tlc = len(cases)
     cases += random_cases(rng, 120 if tier == "quick" else 1500)
-    decide(ctx, cases, stride=1 if tier == "quick" else 2)
+    decide(ctx, cases, stride=1 if tier == "quick" else 3)
     ctx.extra["embeddings"] = ORIGIN0
     ctx.extra["cases_from_tlc"] = n_tlc
     ctx.extra["cases_random"] = len(cases) - n_tlc
@@ -475,7 +475,7 @@ def run(ctx: Ctx) -> int:
         "float dimension sampled: every case under 2 of the 7 origin-0 embeddings (rotating), not enumerated",
         "'not moved' and 'inside the die' judged to 1e-9 of the larger die side; determinism judged on the bit patterns of the "
         "returned centres of two executions on equal (deep-copied) inputs in one process, and of a third execution in a separate, "
-        "freshly forked child process (every case in the quick tier, every second case in the thorough tier)",
+        "freshly forked child process (every case in the quick tier, every third case in the thorough tier)",
         "best-of: costs recomputed with the library's own total_intersection_area and wire_length on the layouts that "
         "force_algorithm itself produced (wrapper on the module-level name), compared after scaling to 1e-8 of the largest cost",
         "the optimiser itself is not predicted: the spec is a contract (what an iteration may do), not the force computation",
